@@ -441,4 +441,4 @@ mod test {
 
 #[cfg(kani)]
 #[path = "/verif/kani/gene.rs"]
-mod verif_kani;
+pub(crate) mod verif_kani;
